@@ -171,7 +171,7 @@ Modes == {[cmd |-> "lint", feu |-> FALSE, nofail |-> FALSE], [cmd |-> "lint", fe
           [cmd |-> "fix", feu |-> FALSE, nofail |-> FALSE], [cmd |-> "fix", feu |-> TRUE, nofail |-> FALSE],
           [cmd |-> "format", feu |-> FALSE, nofail |-> FALSE]}
 Sc(fam, m, files, limkind, skipfail, runaway, cfgsrc, cfgitem, procs) ==
-   [family |-> fam, usage |-> "none", vlimit |-> 0, cmd |-> m.cmd, feu |-> m.feu, nofail |-> m.nofail, files |-> files, limkind |-> limkind,
+   [family |-> fam, usage |-> "none", vlimit |-> 0, limsrc |-> "root", cmd |-> m.cmd, feu |-> m.feu, nofail |-> m.nofail, files |-> files, limkind |-> limkind,
     skipfail |-> skipfail, runaway |-> runaway, cfgsrc |-> cfgsrc, cfgitem |-> cfgitem, procs |-> procs]
 
 NoFail == [cmd |-> "lint", feu |-> FALSE, nofail |-> TRUE]
@@ -189,6 +189,12 @@ Size   == {Sc("size", m, fs, k, sf, 0, "root", "all", p) :
               fs \in {<<f>> : f \in SizeFiles} \cup {<<f, FileOf(<<"none", "live">>, <<"fixable", "live">>, "under", 1)>> : f \in SizeFiles}}
 \* processes = 2 needs two files (lint_paths forces serial for one file)
 SizeOK(s) == s.procs = 1 \/ (Len(s.files) = 2 /\ s.files[1].size = "over" /\ s.files[1].err = "none" /\ s.limkind = "byte")
+\* where the byte limit is configured: in the root config (above), or in a .sqlfluff next to the file that sets a
+\* LOWER limit than the root's (file between the two must be skipped) or a HIGHER one (file between the two must
+\* not).  The effective limit is the per-file configuration's, so the verdict is the same: limsrc is not a field of R.
+SizeNested == {[s EXCEPT !.limsrc = ls] : ls \in {"nested_lower", "nested_higher"},
+                  s \in {t \in Size : t.limkind = "byte" /\ t.procs = 1 /\ t.files[1].err = "none"
+                                      /\ ~t.nofail /\ ~t.feu /\ t.cmd \in {"lint", "fix"}}}
 LimitFiles == {FileOf(e, l, "na", p) : e \in {<<"none", "live">>, <<"prs_section", "noqa">>},
                   l \in {<<"none", "live">>, <<"fixable", "live">>, <<"fixable", "warning">>}, p \in 0..2}
 LimitOK(f) == (f.lint = "none") = (f.passes = 0)
@@ -219,7 +225,7 @@ FamilyOf(fam) == CASE fam = "single" -> Single
                    [] fam = "usage"  -> {s \in Usage : UsageOK(s)}
                    [] fam = "variant" -> Variant
                    [] fam = "pair"   -> {s \in Pair : PairOK(s)}
-                   [] fam = "size"   -> {s \in Size : SizeOK(s)}
+                   [] fam = "size"   -> {s \in Size : SizeOK(s)} \cup SizeNested
                    [] fam = "limit"  -> Limit
                    [] fam = "cfg"    -> {s \in Cfg : CfgOK(s)}
                    [] OTHER -> {}
@@ -267,7 +273,7 @@ Record(s) ==
    LET A == AlgoRun(s)
        AS == AlgoStrRun(s)
        one == Len(s.files) = 1
-   IN [family |-> s.family, usage |-> s.usage, vlimit |-> s.vlimit, cmd |-> s.cmd, feu |-> s.feu, nofail |-> s.nofail, skipfail |-> s.skipfail,
+   IN [family |-> s.family, usage |-> s.usage, vlimit |-> s.vlimit, limsrc |-> s.limsrc, cmd |-> s.cmd, feu |-> s.feu, nofail |-> s.nofail, skipfail |-> s.skipfail,
        limkind |-> s.limkind, runaway |-> s.runaway, cfgsrc |-> s.cfgsrc, cfgitem |-> s.cfgitem, procs |-> s.procs,
        files |-> s.files,
        allowed |-> J({VJ(Verdict(RunOf(s, r))) : r \in Readings(s)}),
